@@ -196,11 +196,36 @@ harness(void)
 #elif defined(H_ADLER)
         /* a running Adler-32 value has both halves < 65521 */
         VASSUME((seed & 0xffff) < SPEC_ADLER_MOD && (seed >> 16) < SPEC_ADLER_MOD);
+#if defined(CA) && defined(CB)
+        /* case split on the two quotients of the final reductions (swept exhaustively by the plan):
+         * unreduced sums XA = s1 + sum bytes, XB = s2 + sum of partial XA; CA*65521 <= XA < (CA+1)*65521 etc.
+         * H_ADLER_CASES decides that the swept (CA,CB) rectangle covers every input. */
+        {
+                uint64_t XA = seed & 0xffff, XB = seed >> 16;
+                for (int i = 0; i < N; i++) {
+                        XA += I.a[i];
+                        XB += XA;
+                }
+                VASSUME(XA >= (uint64_t) CA * SPEC_ADLER_MOD && XA < (uint64_t) (CA + 1) * SPEC_ADLER_MOD);
+                VASSUME(XB >= (uint64_t) CB * SPEC_ADLER_MOD && XB < (uint64_t) (CB + 1) * SPEC_ADLER_MOD);
+        }
+#endif
 #ifdef ADLER_PCT
         VASSERT(BASE(seed, buf, N) == spec_adler32((uint32_t) seed, I.a, N), "adler32_base == RFC 1950 definition (%)");
 #else
         VASSERT(BASE(seed, buf, N) == spec_adler32_cs((uint32_t) seed, I.a, N), "adler32_base == RFC 1950 definition");
 #endif
+#elif defined(H_ADLER_CASES)
+        VASSUME((seed & 0xffff) < SPEC_ADLER_MOD && (seed >> 16) < SPEC_ADLER_MOD);
+        {
+                uint64_t XA = seed & 0xffff, XB = seed >> 16;
+                for (int i = 0; i < N; i++) {
+                        XA += I.a[i];
+                        XB += XA;
+                }
+                VASSERT(XA < (uint64_t) 2 * SPEC_ADLER_MOD, "quotient of A is 0 or 1");
+                VASSERT(XB < (uint64_t) (N + 2) * SPEC_ADLER_MOD, "quotient of B is at most N+1");
+        }
 #elif defined(H_ADLER_CS)
         VASSUME((seed & 0xffff) < SPEC_ADLER_MOD && (seed >> 16) < SPEC_ADLER_MOD);
         uint32_t r = spec_adler32((uint32_t) seed, I.a, N);
